@@ -106,9 +106,39 @@ SPECS = {
     ]),
     'parse_output_format': dict(ret='r', attrs=[NODEC], ensures=FRAME),
     # select list and root options: panic freedom, cursor frame and termination only
-    'parse_root_options': dict(ret='r', attrs=[NODEC], ensures=FRAME, hoist_items=True, loops={0: dict(invariant=LOOPINV)}),
+    # root options (C11 / C01): an option list made of DOCUMENTED option words (docs/usage.md: mindepth N, maxdepth N / depth N,
+    # symlinks / sym, archives / arc, gitignore / git, hgignore / hg, dockerignore / dock, no..ignore / nogit nohg nodock, bfs, dfs,
+    # regexp / rx - any letter case) that ends at the end of the input or at a structural token yields exactly the documented
+    # options and leaves the structural token for the caller. Nothing is claimed once an undocumented word is met.
+    'parse_root_options': dict(ret='r', attrs=[NODEC], hoist_items=True,
+        ensures=FRAME + [
+            '/*C11.rootopt*/ ({ let run = opt_run(old(self).lexems@, old(self).index as int, opt_init(), true); '
+            '!opt_stops_at_word(old(self).lexems@, run.1) ==> (r == opt_result(run.0) && final(self).index >= run.1 && '
+            '(run.1 < old(self).lexems@.len() ==> final(self).index == run.1)) })',
+            # C01 reading: only `mindepth N`, `maxdepth N`, `depth N` are specified; any other word ends the specified prefix
+            '/*C01.rootopt*/ ({ let run = opt_run(old(self).lexems@, old(self).index as int, opt_init(), false); '
+            '!opt_stops_at_word(old(self).lexems@, run.1) ==> (r == opt_result(run.0) && final(self).index >= run.1 && '
+            '(run.1 < old(self).lexems@.len() ==> final(self).index == run.1)) })'],
+        proofs={r'let\s+lexem\s*=\s*self\.next_lexem\(\);': 'broadcast use axiom_pat_view_str; proof { opt_reveal_literals(); }'},
+        loops={0: dict(
+            invariant=LOOPINV,
+            invariant_except_break=[
+                '/*C11.rootopt*/ ({ let run = opt_run(self.lexems@, old(self).index as int, opt_init(), true); '
+                'opt_stops_at_word(self.lexems@, run.1) || run == opt_run(self.lexems@, self.index as int, OptSt { mode, min_depth, max_depth, archives, symlinks, gitignore, hgignore, dockerignore, traversal, regexp }, true) })',
+                '/*C01.rootopt*/ ({ let run = opt_run(self.lexems@, old(self).index as int, opt_init(), false); '
+                'opt_stops_at_word(self.lexems@, run.1) || run == opt_run(self.lexems@, self.index as int, OptSt { mode, min_depth, max_depth, archives, symlinks, gitignore, hgignore, dockerignore, traversal, regexp }, false) })'],
+            ensures=[
+                '/*C11.rootopt*/ ({ let run = opt_run(self.lexems@, old(self).index as int, opt_init(), true); '
+                'opt_stops_at_word(self.lexems@, run.1) || (run.0 == (OptSt { mode, min_depth, max_depth, archives, symlinks, gitignore, hgignore, dockerignore, traversal, regexp }) '
+                '&& self.index >= run.1 && (run.1 < self.lexems@.len() ==> self.index == run.1)) })',
+                '/*C01.rootopt*/ ({ let run = opt_run(self.lexems@, old(self).index as int, opt_init(), false); '
+                'opt_stops_at_word(self.lexems@, run.1) || (run.0 == (OptSt { mode, min_depth, max_depth, archives, symlinks, gitignore, hgignore, dockerignore, traversal, regexp }) '
+                '&& self.index >= run.1 && (run.1 < self.lexems@.len() ==> self.index == run.1)) })'])}),
+    'is_regexp_root_option': dict(ret='r', ensures=['r == spec_is_rx_word(s@)']),
     'parse_fields': dict(ret='r', attrs=[NODEC], ensures=FRAME, loops={0: dict(invariant=LOOPINV)}),
-    'is_root_option_keyword': dict(external_body=True),
+    # every documented option name (any letter case) is recognised as one
+    'is_root_option_keyword': dict(ret='r', ensures=['/*C11.rootopt.keyword*/ opt_doc_name(opt_init(), s@, true) is Some ==> r'],
+                                   proofs={r'let\s+s\s*=\s*s\.to_ascii_lowercase\(\);': 'broadcast use axiom_pat_view_str; proof { opt_reveal_literals(); }'}),
     'negate_expr_op': dict(ret='r', attrs=[NODEC], rewrites=[('let &Some(op) = &expr.op', 'let Some(op) = expr.op')],
                            ensures=['/*C03.demorgan*/ cond_wf(*expr) ==> cond_wf(r)',
                                     '/*C03.demorgan*/ cond_wf(*expr) ==> cond_sem(r) == !cond_sem(*expr)'],
@@ -142,6 +172,94 @@ SPECS['negate_expr_op']['decreases'] = 'expr'
 
 EXTRA = '''
 pub uninterp spec fn spec_argless(f: Function) -> bool;
+
+// ---- C11 / C01: the documented root options (docs/usage.md, table "Search roots") ------------------------------------
+ghost struct OptSt {
+    pub mode: RootParsingMode, pub min_depth: u32, pub max_depth: u32, pub archives: bool, pub symlinks: bool,
+    pub gitignore: Option<bool>, pub hgignore: Option<bool>, pub dockerignore: Option<bool>, pub traversal: TraversalMode, pub regexp: bool,
+}
+spec fn opt_init() -> OptSt {
+    OptSt { mode: RootParsingMode::Unknown, min_depth: 0, max_depth: 0, archives: false, symlinks: false, gitignore: None,
+            hgignore: None, dockerignore: None, traversal: TraversalMode::Bfs, regexp: false }
+}
+pub open spec fn spec_is_rx_word(s: Seq<char>) -> bool {
+    spec_ascii_lower(s) == spec_ascii_lower("rx"@) || spec_ascii_lower(s) == spec_ascii_lower("regexp"@)
+}
+// one documented option word (any letter case) in a position where an option name is expected
+spec fn opt_doc_name(st: OptSt, t: Seq<char>, full: bool) -> Option<OptSt> {
+    let w = spec_ascii_lower(t);
+    let o = OptSt { mode: RootParsingMode::Options, ..st };
+    if w == "mindepth"@ { Some(OptSt { mode: RootParsingMode::MinDepth, ..st }) }
+    else if w == "maxdepth"@ || w == "depth"@ { Some(OptSt { mode: RootParsingMode::Depth, ..st }) }
+    else if !full { None }   // C01 reading: only the depth options are specified
+    else if w == "symlinks"@ || w == "sym"@ { Some(OptSt { symlinks: true, ..o }) }
+    else if w == "archives"@ || w == "arc"@ { Some(OptSt { archives: true, ..o }) }
+    else if w == "gitignore"@ || w == "git"@ { Some(OptSt { gitignore: Some(true), ..o }) }
+    else if w == "hgignore"@ || w == "hg"@ { Some(OptSt { hgignore: Some(true), ..o }) }
+    else if w == "dockerignore"@ || w == "dock"@ { Some(OptSt { dockerignore: Some(true), ..o }) }
+    else if w == "nogitignore"@ || w == "nogit"@ { Some(OptSt { gitignore: Some(false), ..o }) }
+    else if w == "nohgignore"@ || w == "nohg"@ { Some(OptSt { hgignore: Some(false), ..o }) }
+    else if w == "nodockerignore"@ || w == "nodock"@ { Some(OptSt { dockerignore: Some(false), ..o }) }
+    else if w == "bfs"@ { Some(OptSt { traversal: TraversalMode::Bfs, ..o }) }
+    else if w == "dfs"@ { Some(OptSt { traversal: TraversalMode::Dfs, ..o }) }
+    else { None }
+}
+spec fn opt_doc_word(st: OptSt, t: Seq<char>, full: bool) -> Option<OptSt> {
+    match st.mode {
+        RootParsingMode::MinDepth => match spec_parse::<u32>(t) {
+            Some(n) => Some(OptSt { min_depth: n, mode: RootParsingMode::Options, ..st }), None => None },
+        RootParsingMode::Depth => match spec_parse::<u32>(t) {
+            Some(n) => Some(OptSt { max_depth: n, mode: RootParsingMode::Options, ..st }), None => None },
+        _ => opt_doc_name(st, t, full),
+    }
+}
+// Some(state after the token) when the token is a documented continuation of the option list, None otherwise
+spec fn opt_doc(st: OptSt, l: Lexem, full: bool) -> Option<OptSt> {
+    match l {
+        Lexem::String(t) => opt_doc_word(st, t@, full),
+        Lexem::RawString(t) => opt_doc_word(st, t@, full),
+        Lexem::Operator(t) => if full && (st.mode is Unknown || st.mode is Options) && spec_is_rx_word(t@) {
+                Some(OptSt { regexp: true, mode: RootParsingMode::Options, ..st }) } else { None },
+        _ => None,
+    }
+}
+spec fn opt_run(ls: Seq<Lexem>, i: int, st: OptSt, full: bool) -> (OptSt, int)
+    decreases ls.len() - i
+{
+    if 0 <= i < ls.len() {
+        match opt_doc(st, ls[i], full) { Some(st2) => opt_run(ls, i + 1, st2, full), None => (st, i) }
+    } else { (st, i) }
+}
+// the documented prefix of the option list ends at a word-like token: behaviour not specified by the documentation
+spec fn opt_stops_at_word(ls: Seq<Lexem>, j: int) -> bool {
+    0 <= j < ls.len() && (ls[j] is String || ls[j] is RawString || ls[j] is Operator)
+}
+spec fn opt_result(st: OptSt) -> Option<RootOptions> {
+    if st.mode is Unknown { None } else {
+        Some(RootOptions { min_depth: st.min_depth, max_depth: st.max_depth, archives: st.archives, symlinks: st.symlinks,
+                           gitignore: st.gitignore, hgignore: st.hgignore, dockerignore: st.dockerignore,
+                           traversal: st.traversal, regexp: st.regexp })
+    }
+}
+proof fn opt_reveal_literals()
+    ensures
+        "mindepth"@ == seq!['m','i','n','d','e','p','t','h'], "maxdepth"@ == seq!['m','a','x','d','e','p','t','h'], "depth"@ == seq!['d','e','p','t','h'],
+        "symlinks"@ == seq!['s','y','m','l','i','n','k','s'], "sym"@ == seq!['s','y','m'],
+        "archives"@ == seq!['a','r','c','h','i','v','e','s'], "arc"@ == seq!['a','r','c'],
+        "gitignore"@ == seq!['g','i','t','i','g','n','o','r','e'], "git"@ == seq!['g','i','t'],
+        "hgignore"@ == seq!['h','g','i','g','n','o','r','e'], "hg"@ == seq!['h','g'],
+        "dockerignore"@ == seq!['d','o','c','k','e','r','i','g','n','o','r','e'], "dock"@ == seq!['d','o','c','k'],
+        "nogitignore"@ == seq!['n','o','g','i','t','i','g','n','o','r','e'], "nogit"@ == seq!['n','o','g','i','t'],
+        "nohgignore"@ == seq!['n','o','h','g','i','g','n','o','r','e'], "nohg"@ == seq!['n','o','h','g'],
+        "nodockerignore"@ == seq!['n','o','d','o','c','k','e','r','i','g','n','o','r','e'], "nodock"@ == seq!['n','o','d','o','c','k'],
+        "bfs"@ == seq!['b','f','s'], "dfs"@ == seq!['d','f','s'], "regex"@ == seq!['r','e','g','e','x'],
+{
+    reveal_strlit("mindepth"); reveal_strlit("maxdepth"); reveal_strlit("depth"); reveal_strlit("symlinks"); reveal_strlit("sym");
+    reveal_strlit("archives"); reveal_strlit("arc"); reveal_strlit("gitignore"); reveal_strlit("git"); reveal_strlit("hgignore");
+    reveal_strlit("hg"); reveal_strlit("dockerignore"); reveal_strlit("dock"); reveal_strlit("nogitignore"); reveal_strlit("nogit");
+    reveal_strlit("nohgignore"); reveal_strlit("nohg"); reveal_strlit("nodockerignore"); reveal_strlit("nodock");
+    reveal_strlit("bfs"); reveal_strlit("dfs"); reveal_strlit("regex");
+}
 
 spec fn rem(p: Parser) -> int { if p.index <= p.lexems.len() { p.lexems.len() + 1 - p.index } else { 0 } }
 
